@@ -193,11 +193,12 @@ impl DcpsDomainParticipant {
         Ok(())
     }
 
-    #[tracing::instrument(skip(self))]
+    #[tracing::instrument(skip(self, runtime))]
     pub fn set_publisher_qos(
         &mut self,
         publisher_handle: &InstanceHandle,
         qos: QosKind<PublisherQos>,
+        runtime: &impl DdsRuntime,
     ) -> DdsResult<()> {
         let qos = match qos {
             QosKind::Default => self.domain_participant.default_publisher_qos.clone(),
@@ -216,6 +217,17 @@ impl DcpsDomainParticipant {
             publisher.qos.check_immutability(&qos)?;
         }
         publisher.qos = qos;
+
+        // The publisher policies are part of the discovery data of its writers
+        let enabled_writer_list: Vec<_> = publisher
+            .data_writer_list
+            .iter()
+            .filter(|x| x.enabled)
+            .map(|x| x.instance_handle)
+            .collect();
+        for data_writer_handle in enabled_writer_list {
+            self.announce_data_writer(publisher_handle, &data_writer_handle, runtime);
+        }
         Ok(())
     }
 
